@@ -3,10 +3,11 @@
 usage: run_seeds.py SEED_OUT_DIR... [ids...]   (results: /tmp/sv/seedrun_results.json)"""
 import json, os, re, subprocess, sys
 OUTS = [a for a in sys.argv[1:] if os.path.isdir(a)]
-WT = '/tmp/sv/seedrun'
-RES = '/tmp/sv/seedrun_results.json'
+TAG = os.environ.get('SEEDRUN_TAG', '')
+WT = '/tmp/sv/seedrun' + TAG
+RES = '/tmp/sv/seedrun_results' + TAG + '.json'
 HERE = os.path.dirname(os.path.dirname(os.path.abspath(__file__)))
-env = dict(os.environ, VERIF_VX='/verif/target/release/vx', VERIF_REPO=WT, VERIF_WORK='/tmp/sv/work', VERIF_EVIDENCE='/tmp/sv/evidence', VERIF_REPLAYS='/tmp/sv/replays', VERIF_BOUNDED_IN_ALL='1', VERIF_REPLAY_TARGET='/tmp/sv/rptarget')
+env = dict(os.environ, VERIF_VX='/verif/target/release/vx', VERIF_REPO=WT, VERIF_WORK='/tmp/sv/work' + TAG, VERIF_EVIDENCE='/tmp/sv/evidence' + TAG, VERIF_REPLAYS='/tmp/sv/replays' + TAG, VERIF_BOUNDED_IN_ALL='1', VERIF_REPLAY_TARGET='/tmp/sv/rptarget' + TAG)
 if not os.path.exists(WT):
     subprocess.run(f'git -C /repo worktree add -q --detach {WT} HEAD', shell=True, check=True)
 conf = json.load(open('/tmp/sv/results.json'))
@@ -36,7 +37,7 @@ for sid in ids:
             r['checks'][k] = {'exit': int(v)}
     else:
         r['error'] = c.stdout[-1500:] + c.stderr[-1500:]
-    r['lines'] = [l[:400] for l in lines if l.startswith('VIOLATION')][:10] + [l[:300] for l in lines if not l.startswith('VIOLATION')][:6]
+    r['lines'] = [l[:400] for l in lines if l.startswith('VIOLATION')][:40] + [l[:300] for l in lines if not l.startswith('VIOLATION')][:6]
     res[sid] = r
     json.dump(res, open(RES, 'w'), indent=1)
     print(sid, 'own=%s' % r['checks'].get(prop, {}).get('exit'), 'caught_by=' + ','.join(p for p, v in r['checks'].items() if v['exit'] == 1), 'inconcl=' + ','.join(p for p, v in r['checks'].items() if v['exit'] == 2), flush=True)
